@@ -87,7 +87,7 @@ def one_case(seed):
                 if (k, 'dist') in ids0 and ids0[(k, 'dist')] == ids1.get((k, 'dist')) and any(l in ('dist',) for l in labels):
                     return {'kind': 'edit-did-not-propagate-to-a-dependent', 'edit': desc, 'package': k, 'history': log2}, log2
             for (k, l), v in ids1.items():
-                if k not in dep and (k, l) in ids0 and ids0[(k, l)] != v and desc not in ('class script', 'tool path', 'tool libs', 'tool libs order'):
+                if k not in dep and (k, l) in ids0 and ids0[(k, l)] != v and desc not in ('class script', 'buildFinalize added to an inherited class', 'tool path', 'tool libs', 'tool libs order'):
                     return {'kind': 'edit-changed-an-unrelated-package', 'edit': desc, 'package': k, 'step': l, 'history': log2}, log2
             p.write(model)
             if I.ids_of(I.query(p)) != ids0:
